@@ -6,6 +6,7 @@ import common as c
 import c0809_lib as L
 import c09_contexts as X
 import c09_parser as PH
+from c0809_gen import Case as G_CASE
 
 PID = "C08"
 MANIFEST = {
@@ -133,6 +134,27 @@ def main(argv):
                                              "rerun": "./check C08 --replay <this file>"})
         progs = (L.corpus_programs(PID) + X.programs(rng, 400 if quick else 20000) +
                  L.gen_programs(rng, 600 if quick else 15000, h=h))
+        # INFLATED family (round 7, after seed C08-11: a layout decision taken from the byte span of the SOURCE instead
+        # of from the tree, width and indentation): the same programs with their layout blown up — wide gaps after commas,
+        # deep indentation after line breaks, one item per line — so that the source of a node is many times wider than
+        # its canonical form; plus hand-aligned tables.  The law (format twice = format once) holds for any program text.
+        n_inf = 120 if quick else 3000
+        inflated = []
+        for k, (src_k, case_k, w_k) in enumerate(progs[len(L.corpus_programs(PID)):][:n_inf]):
+            pad = " " * (60, 130, 400)[k % 3]
+            if k % 2 == 0:
+                t = src_k.replace(",", "," + pad)
+            else:
+                t = src_k.replace(",", ",\n" + " " * 24).replace("\n", "\n" + " " * 16)
+            if t != src_k:
+                inflated.append((t, case_k, w_k if k % 4 else None))
+        for n_items in (2, 8, 20, 40):
+            for ind in (16, 60):
+                body = "".join("\n" + " " * ind + "%d," % (i + 1) for i in range(n_items))
+                inflated.append(("weights = [" + body + "\n]\nf(" + body + "\n)", G_CASE(), None))
+                inflated.append(("weights = {" + "".join("\n" + " " * ind + "k%d: %d," % (i, i) for i in range(n_items)) + "\n}", G_CASE(), 20 + n_items))
+        progs = progs + inflated
+        res.streams["INFLATED family"] = {"programs": len(inflated)}
         cases = L.run_search_inputs(h, clir, progs, cli_every=2 if quick else 3)
         fails = idem_failures(h, cases)
         classes = classify(h, fails)
